@@ -1,11 +1,11 @@
 package englab
 
 import (
-	"os"
-	"testing"
-	"fmt"
-	"strings"
 	"encoding/json"
+	"fmt"
+	"os"
+	"strings"
+	"testing"
 )
 
 func TestFind(t *testing.T) {
@@ -17,20 +17,24 @@ func TestFind(t *testing.T) {
 	for i := 0; i < 1500 && n < 2; i++ {
 		seq := genSequence(1, i, 36)
 		for _, typ := range engines {
-		fs, _ := runSequence(seq, typ, dir, newStats(), 1000, nil)
-		for _, f := range fs {
-			if strings.HasPrefix(f.Sig, want) {
-				n++
-				s2, f2 := shrink(seq, typ, dir, f.Sig, 400)
-				if f2 == nil { fmt.Println("shrink failed"); f2 = &f; s2 = seq }
-				b, _ := json.MarshalIndent(s2.Steps, "", " ")
-				fmt.Println("SEQ", i, f2.Sig, "|", f2.Summary)
-				fmt.Println(string(b))
-				d, _ := json.MarshalIndent(f2.Detail, "", " ")
-				fmt.Println(string(d))
-				break
+			fs, _ := runSequence(seq, typ, dir, newStats(), 1000, nil)
+			for _, f := range fs {
+				if strings.HasPrefix(f.Sig, want) {
+					n++
+					s2, f2 := shrink(seq, typ, dir, f.Sig, 400)
+					if f2 == nil {
+						fmt.Println("shrink failed")
+						f2 = &f
+						s2 = seq
+					}
+					b, _ := json.MarshalIndent(s2.Steps, "", " ")
+					fmt.Println("SEQ", i, f2.Sig, "|", f2.Summary)
+					fmt.Println(string(b))
+					d, _ := json.MarshalIndent(f2.Detail, "", " ")
+					fmt.Println(string(d))
+					break
+				}
 			}
-		}
 		}
 	}
 }
